@@ -57,7 +57,7 @@ def run(rep, idx, tier):
     frep = Report("C19", tier)
     rules(frep, fx, fixture=True)
     fired = {o.rule for o in frep.by_status("violated")}
-    for r in ("C19.1", "C19.2", "C19.3", "C19.4", "C19.6", "C19.8", "C19.9", "C19.10"):
+    for r in ("C19.1", "C19.2", "C19.3", "C19.4", "C19.6", "C19.8", "C19.9", "C19.10", "C19.11"):
         if r in fired:
             rep.ok(r, "sa/fixtures/c19", "positive fixture is flagged", "the rule fires on the committed bad example", nontrivial=False)
         else:
@@ -96,6 +96,7 @@ def rules(rep, idx, fixture):
     partial_reducers(rep, idx)
     shared_state(rep, idx)
     late_binding(rep, idx)
+    identity_comparisons(rep, idx)
 
 
 # ---- C19.9 no object shared between calls / instances by accident ------------------------------------------
@@ -195,6 +196,56 @@ def shared_state(rep, idx, rule="C19.9", classes=None):
                                     "same mutable object", line=x.lineno)
     rep.ok(rule, "-", "default arguments and class attributes hold no mutable object", f"{n} default(s) / class attribute(s) classified",
            nontrivial=n > 0)
+
+
+# ---- C19.11 identity comparison between values -------------------------------------------------------------------
+def identity_comparisons(rep, idx, rule="C19.11", classes=None):
+    """`a is b` / `a is not b` where neither side is None, True, False, Ellipsis or a name that denotes a class / enum member /
+    sentinel object: identity of integers, strings and tuples is an implementation detail (small-int cache, interning), so
+    the test is true for the values the unit tests use and false for larger ones."""
+    wanted = None if classes is None else set(classes)
+    n = 0
+    for f in idx.all_functions():
+        if wanted is not None and not (f.cls is not None and (f.cls.qual in wanted or f.cls.name in wanted or
+                                                              any(f.cls.qual.startswith(w + ".") for w in wanted))):
+            continue
+        for x in ast.walk(f.node):
+            if not isinstance(x, ast.Compare):
+                continue
+            left = x.left
+            for op, right in zip(x.ops, x.comparators):
+                if isinstance(op, (ast.Is, ast.IsNot)):
+                    n += 1
+                    def singleton(e):
+                        if isinstance(e, ast.Constant) and (e.value is None or e.value is True or e.value is False or e.value is Ellipsis):
+                            return True
+                        # Enum members, classes and module-level sentinels are compared by identity on purpose
+                        if isinstance(e, ast.Attribute) and e.attr[:1].isupper():
+                            return True
+                        if isinstance(e, ast.Name) and (e.id[:1].isupper() or e.id.isupper()):
+                            return True
+                        return False
+                    if not (singleton(left) or singleton(right)):
+                        arith = any(isinstance(e, (ast.BinOp, ast.Subscript, ast.Call)) or
+                                    (isinstance(e, ast.Constant) and isinstance(e.value, (int, str, tuple)) and not isinstance(e.value, bool))
+                                    for e in (left, right))
+                        what = f"`{ast.unparse(x)[:60]}`"
+                        # names bound from arithmetic / subscripts in the same function are values, too
+                        def value_name(e):
+                            if not isinstance(e, ast.Name):
+                                return False
+                            for s in ast.walk(f.node):
+                                if isinstance(s, ast.Assign) and any(isinstance(t, ast.Name) and t.id == e.id for t in s.targets) and \
+                                        isinstance(s.value, (ast.BinOp, ast.Subscript, ast.Call, ast.Constant)):
+                                    return True
+                            return False
+                        if arith or value_name(left) or value_name(right):
+                            rep.bad(rule, f.site, what, "identity comparison between computed values (integers, strings, tuples): true only while "
+                                    "CPython happens to share the object (integers up to 256), false for the same value otherwise", line=x.lineno)
+                        else:
+                            rep.unk(rule, f.site, what, "identity comparison whose operands are neither singletons nor evidently values")
+                left = right
+    rep.ok(rule, "-", "`is` / `is not` are used with singletons only", f"{n} identity comparison(s) examined", nontrivial=False)
 
 
 # ---- C19.10 closures created in a loop do not capture the loop variable late ------------------------------------
